@@ -144,8 +144,8 @@ def _is_input_array(node) -> bool:
 def check_loop_protocol(repo, rep):
     rid = "C02-R1"
     rep.rule(rid, "per simulated step and symbol: the new 1m candle(s) are matched against resting orders exactly once, "
-                  "after gap normalisation with the element just before them (every step but the first), and before "
-                  "any strategy executes")
+                  "after gap normalisation of the step's first candle with the element just before it (every step but the first; further "
+                  "candles of a fast-mode chunk are normalised in an inner loop, decided by C02-R2h), and before any strategy executes")
     rid6 = "C02-R6"
     rep.rule(rid6, "market orders queued by a strategy step are flushed in the same step: a call reaching "
                    "execute_pending_market_orders follows the last strategy execution of every iteration, and every "
@@ -160,7 +160,17 @@ def check_loop_protocol(repo, rep):
             key = f"{sim}|{' '.join(SL.names(evs))}"
             segs = SL.segments(evs, "sym")
             for seg in segs:
-                nm = [e for e in seg if e[0] in ("call", "guard")]
+                # events inside a further inner loop of the symbol iteration (e.g. the fast simulator's loop over the other candles
+                # of the chunk, each normalised against its predecessor) are not part of the head-of-step protocol
+                depth, head = 0, []
+                for e in seg:
+                    if e[0] == "loop" and str(e[1]).startswith("loop:"):
+                        depth += 1
+                    elif e[0] == "endloop" and str(e[1]).startswith("loop:"):
+                        depth -= 1
+                    elif depth == 0 or not (e[0] == "call" and e[1] == "_get_fixed_jumped_candle"):
+                        head.append(e)
+                nm = [e for e in head if e[0] in ("call", "guard")]
                 effs = [i for i, e in enumerate(nm) if e[0] == "call" and e[1] == eff]
                 if len(effs) != 1:
                     rep.violation(rid, f"{sim}|match-once", f"{sim}: {eff} is called {len(effs)} times (expected exactly once) "
@@ -265,6 +275,56 @@ def check_fast_chunk(repo, rep, tier):
                     rep.violation(rid, "fast-chunk|price", f"order {nm} fills at {price}, not at its own price {own}, for {desc}")
         rep.instance(rid, desc, {"ordering": desc, "fills": repr(res)} if n % 300 == 1 else None)
     rep.floor(rid, 1000)
+
+
+def check_fast_one_candle(repo, rep, tier):
+    rid = "C02-R2g"
+    rep.rule(rid, "fast simulator on a one-candle chunk (a 1m route in fast mode): the chunk matcher is executed abstractly for every weak "
+                  "ordering of O/H/L/C with two and three resting orders (both storage orders relative to the prices) and a reaction "
+                  "order: exactly the active orders whose price lies on the (remaining) path fill, once, at their own price - the "
+                  "orders that are read again after a fill must not be taken out of path order, or a touched one is skipped")
+    from props import matchloop
+    n = 0
+    for desc, viols, sample in matchloop.run_all(repo, tier, fast=True):
+        n += 1
+        for r, key, msg in viols:
+            kind = key.split("|")[1]
+            if kind in ("unfilled", "spurious", "double-fill", "fillprice", "nonterminating", "raises"):
+                rep.violation(rid, f"fast-one-candle|{kind}", "fast simulator, one-candle chunk: " + msg, {"ordering": desc})
+        rep.instance(rid, desc, sample if n % 500 == 1 else None)
+    rep.floor(rid, 1500)
+
+
+def check_fast_gap(repo, rep, tier):
+    rid = "C02-R2h"
+    rep.rule(rid, "fast simulator, gap INSIDE a chunk: _simulate_new_candles is executed abstractly on a two-minute chunk whose second "
+                  "candle opens away from the previous close, for every weak ordering of (previous close, o2, c2, h2, l2, p[, r]): "
+                  "exactly the orders whose price lies in the minute's range extended to the previous close fill, each once and at "
+                  "its own price")
+    from props import fastgap
+    n = 0
+    for desc, s, res in fastgap.run_all(repo, tier):
+        n += 1
+        lo, hi = min(s["l2"], s["a"]), max(s["h2"], s["a"])
+        want = {nm for nm, sym in (("O0", "p"), ("O1", "r")) if sym in s and lo <= s[sym] <= hi}
+        for kind, fills in res["fast"]:
+            if kind != "return":
+                rep.violation(rid, "fast-gap|raises", f"the fast simulator raises on a chunk with a gap inside for {desc}")
+                continue
+            got = [f[0] for f in fills]
+            if len(set(got)) != len(got):
+                rep.violation(rid, "fast-gap|double-fill", f"an order fills twice in a chunk with a gap inside for {desc}: {got}")
+            if set(got) != want:
+                missing, extra = sorted(want - set(got)), sorted(set(got) - want)
+                rep.violation(rid, "fast-gap|" + ("unfilled" if missing else "spurious"),
+                              f"fast simulator, gap inside the chunk, {desc}: " + (f"order(s) {missing} whose price lies in the minute's range extended to the previous close are left unfilled"
+                                                                                   if missing else f"order(s) {extra} filled outside that range"), {"ordering": desc})
+            for nm, price, t in fills:
+                own = s["p"] if nm == "O0" else s["r"]
+                if price != own:
+                    rep.violation(rid, "fast-gap|price", f"order {nm} fills at {price}, not at its own price {own}, for {desc}")
+        rep.instance(rid, desc, {"ordering": desc, "fast": repr(res["fast"])} if n % 300 == 1 else None)
+    rep.floor(rid, 500)
 
 
 # ------------------------------------------------------------------ market orders
@@ -434,6 +494,8 @@ def run(repo: Repo, rep, tier: str):
     rep.guarded(check_loop_protocol, repo, rep)
     rep.guarded(check_match_loop, repo, rep, tier)
     rep.guarded(check_fast_chunk, repo, rep, tier)
+    rep.guarded(check_fast_one_candle, repo, rep, tier)
+    rep.guarded(check_fast_gap, repo, rep, tier)
     rep.guarded(check_market_orders, repo, rep)
     rep.guarded(check_field_writers, repo, rep)
     rep.undecided_item("exact fill minute of an order inside a fast-mode chunk (see C12)")
